@@ -25,7 +25,7 @@ pub fn apply_mask<R: std::io::Read, S: SpecTable>(it: &mut TagIterator<R, Tag<S>
 /// Flattened view of an iterator error, so assertions do not need to drop anything.
 #[derive(Copy, Clone, PartialEq, Eq)]
 pub enum ErrKind {
-    Eof { tag_start: usize, tag_id: Option<u64>, tag_size: Option<usize>, has_partial: bool },
+    Eof { tag_start: usize, tag_id: Option<u64>, tag_size: Option<usize>, partial_len: Option<usize> },
     InvalidTagId { tag_id: u64, position: usize },
     InvalidTagData { tag_id: u64, position: usize },
     Hierarchy { found_tag_id: u64, current_parent_id: Option<u64> },
@@ -38,7 +38,7 @@ pub enum ErrKind {
 pub fn kind_of(e: &TagIteratorError) -> ErrKind {
     match e {
         TagIteratorError::UnexpectedEOF { tag_start, tag_id, tag_size, partial_data } => {
-            ErrKind::Eof { tag_start: *tag_start, tag_id: *tag_id, tag_size: *tag_size, has_partial: partial_data.is_some() }
+            ErrKind::Eof { tag_start: *tag_start, tag_id: *tag_id, tag_size: *tag_size, partial_len: partial_data.as_ref().map(|d| d.len()) }
         }
         TagIteratorError::CorruptedFileData(c) => match c {
             CorruptedFileError::InvalidTagId { tag_id, position } => ErrKind::InvalidTagId { tag_id: *tag_id, position: *position },
